@@ -47,7 +47,7 @@ theorem C03_step_filter (i : MergeInput) (h : DomC03 i = true) (hs : i.k.isStory
   simp only at hs hp ⊢
   simp only [DomC03, Bool.and_eq_true] at h
   obtain ⟨⟨hwf, _⟩, hsh⟩ := h
-  obtain ⟨rc, hrc, hw, _⟩ := wf_of_WfRO hwf
+  obtain ⟨rc, hrc⟩ := wf_of_WfRO hwf
   obtain ⟨_, base, hb, _, hsend⟩ := shaped_facts hsh
   by_cases hc : completed d = true
   · have hadd : addK k d m = ⟨d, [], some .completed⟩ := by simp [addK, hc]
@@ -59,7 +59,7 @@ theorem C03_step_filter (i : MergeInput) (h : DomC03 i = true) (hs : i.k.isStory
       have := hp c hpc
       simp only [namesChild, hb] at this
       simp only [storyQ, this, Bool.not_false]
-    have hfr := storyLevel_filter k rc base (msgIdExc m) hs hw
+    have hfr := storyLevel_filter k rc base (msgIdExc m) hs
       (fun hks story hst => by
         obtain ⟨body, hbody, hn⟩ := hsend hks
         exact convertStorySend_id hbody hn hst)
